@@ -148,6 +148,23 @@ CLAIMED = {
             "same and another family; TLC judges each step: value set, nothing else changed, resolved style = first set candidate, rejected input unchanged, reset restores.",
             "Trusted: TLC; one representative class per style class; family chains as documented.",
             "DESIGN.md section 5 C20"),
+    "C14": ("exploration",
+            "exact linking numbers and chart-adapted cells/loops with exact breakpoints from TLA+ (Integral.tla, model-checked) + flux/circulation MEASURED from getB/getH by Gauss-Legendre quadrature and judged by TLC against the integer right-hand sides (TV_Integral)",
+            "TLC enumerates closed cells and loops in charts adapted to each body (Cartesian, cylindrical, spherical, affine) in free space, inside a magnet, cutting its boundary "
+            "and enclosing it, sizes 1e-2..1e2, with the exact breakpoints where faces/edges cross material surfaces, and checks the geometry library (linking number invariant under "
+            "joint rigid motion, antisymmetric, additive, zero when separated). The harness integrates the returned B over faces and H along edges (order 32 vs 16 error estimate; "
+            "instances that cannot be measured to 1e-8 are discarded, never rejected); TLC requires flux 0 and circulation = sum I*Lk within 1e-7 of the gross scale.",
+            "Trusted: TLC, the quadrature (self-estimated error), quantization. Cells and loops are enumerated families, not all closed surfaces.",
+            "DESIGN.md section 5 C14"),
+    "C01": ("exploration",
+            "INDIRECT: the C14 engine on a branch-coverage family of cells and loops straddling every value-dependent switch of every closed-form expression + far-field dipole limit and exact closed forms (Dipole, Sphere) compared in TLA+ with integer arithmetic",
+            "TLA+ cannot state or evaluate the Biot-Savart / Coulomb integrals, and a numerical integrator as ground truth would be another technique. What is decided: by the uniqueness "
+            "theorem a field with zero flux, circulation equal to the threaded current, B = mu0 H + J with the known J (C02) and the right dipole limit at infinity IS the field of the "
+            "integrals. Cells and loops straddle each documented switch surface of each formula (listed with file:line in Integral!Switch) inside and outside the body at relative sizes "
+            "1e-3..1e3; a wrong sign/factor/term in one branch shows as a flux or circulation residual. The far-field law (150-5000 sizes) and the closed forms that are first principles "
+            "(Dipole, Sphere inside/outside) are checked as integer identities in TLC. Pointwise equality is implied only to the extent these sampled laws pin the field.",
+            "Indirect claim (see DESIGN.md section 5 C01 and section 8); a switch not listed in Integral!Switch is not covered; unmeasurable instances are not verdicts.",
+            "DESIGN.md section 5 C01"),
 }
 NOT_YET = "check not built yet (work in progress)"
 NA = {}
